@@ -165,12 +165,56 @@ def history_oracle(ctx, names, cs, action, kind, val, log, tape):
         ctx.violation(f'kinematic invariant broken after a history: agent ends at {p2}', case)
 
 
+def agent_variants(ctx):
+    """how far / where an agent REACHES (`Agent.front`, the cell ACTUATE and PICK_N_DROP act on) has nothing to do with how it moves: user
+    agents with a longer or sideways reach move exactly like the stock agent"""
+    from gym_gridverse.agent import Agent
+    from gym_gridverse.envs import transition_functions as tf
+    from gym_gridverse.geometry import Orientation, Position
+    from gym_gridverse.state import State
+
+    class LongArm(Agent):
+        def front(self):
+            return self.transform * Position(-2, 0)
+
+    class SideGripper(Agent):
+        def front(self):
+            return self.transform * Position(0, 1)
+    r = ctx.rng
+    for k in range(150 if ctx.tier == 'quick' else 1500):
+        cs = tsuite.interactive_world(r) if r.random() < 0.5 else (gen.rand_grid(r, r.randint(1, 4), r.randint(1, 4), floor_bias=0.6), None, r.randrange(4), gen.NONE)
+        if cs[1] is None:
+            h, w = gen.shape_of(cs[0])
+            cs = (cs[0], (r.randrange(h), r.randrange(w)), cs[2], cs[3])
+        action = r.randrange(8)
+        names = r.choice([[0], [0], [1], [0, 1]])
+        outs = []
+        for cls in (Agent, LongArm, SideGripper):
+            s0 = wire.mkstate(cs)
+            s = State(s0.grid, cls(s0.agent.position, s0.agent.orientation, s0.agent.grid_object))
+            try:
+                for n in names:
+                    tf.transition_function_registry[impl.TNAMES[n]](s, impl.ACTS[action], rng=None)
+                outs.append(('ok', wire.cstate(s)))
+            except Exception as e:  # noqa: BLE001
+                outs.append(('err', type(e).__name__))
+        ctx.case(('agent-variant', cs, action, tuple(names)), outs[0][0] == 'ok' and outs[0][1] != cs, None)
+        ctx.count('agent variants', impl.ACTS[action].name)
+        if outs[1] != outs[0] or outs[2] != outs[0]:
+            which = 'a two-cell reach' if outs[1] != outs[0] else 'a sideways reach'
+            ctx.violation(f'{"+".join(impl.TNAMES[n] for n in names)}: an agent with {which} (Agent.front overridden) moves / turns differently from the stock agent',
+                          {'functions': [impl.TNAMES[n] for n in names], 'state': gen.show_state(cs), 'action': impl.ACTS[action].name, 'stock': str(outs[0])[:200], 'variant': str(outs[1] if outs[1] != outs[0] else outs[2])[:200]})
+        else:
+            oracle(ctx, names, cs, action, outs[0][0], outs[0][1])
+
+
 def run(ctx):
     ctx.rule = ('corpus of past failures, then every object kind as move target x headings x actions, then ALL poses x actions on all '
                 'Floor/Wall grids up to 2x2,1x3 (thorough: 3x3), then random states (edge-biased poses) with single functions and '
                 'compositions; non-trivial = a move action through move_agent, or a step that changed the state / a composition')
     run_cases(ctx, itt.chain(corpus(), gen_cases(ctx)))
     tsuite.run_histories(ctx, 200 if ctx.tier == 'quick' else 2000, history_oracle)
+    agent_variants(ctx)
     ctx.exhaustive = False
 
 
